@@ -54,7 +54,8 @@ Print Assumptions C06_cache_warmth_independent.
 
 (* every site found in the sources is in a class with one of the lemmas above, or is listed with a
    justification or as a known finding. A new unclassified range over a map, clock read, go statement ...
-   in the scope makes this fail. *)
+   in the scope makes this fail; so does a fan-in call whose callback starts to mention the item in an error text
+   (class ClFanInItem: no justification entry fits it). *)
 Theorem C06_all_sites_classified :
   forall x, In x gen_nd_sites ->
     nd_class_independent (nd_site_class x) = true \/ exists a, In a gen_nd_allow /\ fst (fst a) = nd_site_key x.
@@ -70,6 +71,30 @@ Theorem C06_no_confirmed_dependent_site :
     exists a, In a gen_nd_allow /\ fst (fst a) = nd_site_key x /\ snd (fst a) <> AlFinding.
 Proof. exact nd_all_sites_no_finding. Qed.
 Print Assumptions C06_no_confirmed_dependent_site.
+
+(* fan-in (one goroutine per item, the first error to arrive is returned): when every error is the same whatever
+   item produced it, the finishing order of the goroutines is not observable. Tie: the fan-in scenarios of the
+   engine (requests with two or more items failing with an error other than not-present, repeated on one state) *)
+Theorem C06_fan_in_constant_error_independent :
+  forall (E : Type) (err : E -> option Z) c arrival arrival',
+    (forall e x, err e = Some x -> x = c) -> Permutation arrival arrival' ->
+    nd_fanin_first E err arrival = nd_fanin_first E err arrival'.
+Proof. exact nd_fanin_const_independent. Qed.
+Print Assumptions C06_fan_in_constant_error_independent.
+
+(* no call of a fan-in function in the scope can surface an error whose text mentions the item (its id, a string of
+   the loaded value): the translator follows the callback through the repository and fails closed *)
+Theorem C06_no_fan_in_error_mentions_item :
+  forallb (fun x => match nd_site_class x with ClFanInItem => false | _ => true end) gen_nd_sites = true.
+Proof. exact nd_no_fan_in_item_error. Qed.
+Print Assumptions C06_no_fan_in_error_mentions_item.
+
+(* ... and every fan-in call whose error text is formatted from loaded data is listed with exactly that side condition *)
+Theorem C06_fan_in_value_sites_carry_condition :
+  forall x, In x gen_nd_sites -> nd_site_class x = ClFanInValue ->
+    nd_cond_of gen_nd_allow_cond (nd_site_key x) = nd_fan_in_no_item_id.
+Proof. exact nd_fan_in_value_conditions. Qed.
+Print Assumptions C06_fan_in_value_sites_carry_condition.
 
 (* the governance update loops visit the keys in sorted order: the first error is the same on every node *)
 Theorem C06_sorted_first_error_independent :
@@ -111,3 +136,8 @@ Proof. exact nd_incoherent_cache_example. Qed.
 Example C06_example_emission :
   nd_emit_all Z [] [1; 2] <> nd_emit_all Z [] [2; 1] /\ nd_emit_sorted [] [1; 2] = nd_emit_sorted [] [2; 1].
 Proof. exact nd_emit_order_dependent. Qed.
+
+(* why the condition matters: an error text that mentions the item gives two outputs for two finishing orders *)
+Example C06_example_fan_in_item_error :
+  nd_fanin_first Z (fun i => Some i) [1; 2] = Some 1 /\ nd_fanin_first Z (fun i => Some i) [2; 1] = Some 2 /\ Permutation [1; 2] [2; 1].
+Proof. exact nd_fanin_item_example. Qed.
